@@ -19,3 +19,37 @@ ASSUMPTIONS = [
     "generated FFI units are re-generated from the working tree's .stub files with the repository's own tools/chibi-ffi",
     "trusted base: clang 14 parser / CFG builder / constant evaluator / record layout, cfacts.cc, the python rule library",
 ]
+
+
+CORE_UNITS = {"gc.c", "sexp.c", "bignum.c", "gc_heap.c", "opcodes.c", "vm.c", "eval.c", "simplify.c"}
+MATRIX = ["nosimplify", "custom_ll", "nothreads", "noextfcall", "norefcache"]
+
+
+def config_matrix(res, runner, violation, configs=MATRIX, units=CORE_UNITS):
+    """thorough tier: re-parse the core units under the configurations that toggle guarded code and
+    re-run `runner(prog, result)`; a finding that does not exist in the default configuration is a
+    violation only when the property quantifies over build configurations, else advisory"""
+    base = baseline_keys(res)
+    for cfg in configs:
+        try:
+            prog = extract.load_program(cfg, only=units)
+        except extract.AnalysisBroken as e:
+            res.notes.append("configuration %s could not be parsed: %s" % (cfg, str(e)[:200]))
+            continue
+        r2 = report.Result(res.prop, "thorough")
+        try:
+            runner(prog, r2)
+        except extract.AnalysisBroken as e:
+            res.notes.append("configuration %s: %s" % (cfg, str(e)[:160]))
+            continue
+        new = [f for f in r2.findings if f.key() not in base]
+        for f in new:
+            f.config = cfg
+            f.message = "[only in configuration %s] %s" % (cfg, f.message)
+            f.advisory = not violation
+            res.add(f)
+            base.add(f.key())
+        res.notes.append("configuration %s: %d units, %d obligations, %d findings not present in the default configuration"
+                         % (cfg, len(prog.units), sum(s.obligations for s in r2.stats), len(new)))
+        if cfg not in res.configs:
+            res.configs.append(cfg)
